@@ -324,17 +324,32 @@ func isConvOf(v ssa.Value, to types.BasicKind) (ssa.Value, bool) {
 // guardAtomLowerBound reports whether atom a is one of the accepted forms of
 // "no previous value recorded (state<0) OR request value exceeds (strict) / is not below (non-strict) the recorded one".
 func (s *Slashing) watermarkAtom(a *an.Atom, kind, stateFld, reqFld string, strict bool) bool {
+	return s.watermarkAtomS(a, nil, kind, stateFld, reqFld, strict)
+}
+
+// convOfS is isConvOf through a substitution: Convert(x) where x may be a callee parameter.
+func convOfS(v ssa.Value, sub Subst, to types.BasicKind) (ssa.Value, bool) {
+	x, ok := isConvOf(sub.Res(v), to)
+	if !ok {
+		return nil, false
+	}
+	return sub.Res(x), true
+}
+
+func (s *Slashing) watermarkAtomS(a *an.Atom, sub Subst, kind, stateFld, reqFld string, strict bool) bool {
 	if a == nil {
 		return false
 	}
+	a = resolveAtom(a, sub)
 	isState := func(v ssa.Value) bool {
-		k, f := s.stateField(v)
+		k, f := s.stateField(sub.Res(v))
 		return k == kind && f == stateFld
 	}
 	isReq := func(v ssa.Value) bool {
-		k, f := s.reqField(v)
+		k, f := s.reqField(sub.Res(v))
 		return k == kind && f == reqFld
 	}
+	isConvOf := func(v ssa.Value, to types.BasicKind) (ssa.Value, bool) { return convOfS(v, sub, to) }
 	// "nothing recorded": T < 0, T <= -1, T == -1
 	if a.Op == "<" && isState(a.LV) && an.IsConstInt(a.RV, 0) {
 		return true
@@ -364,9 +379,14 @@ func (s *Slashing) watermarkAtom(a *an.Atom, kind, stateFld, reqFld string, stri
 
 // boundAtom reports whether atom a bounds request value (kind, reqFld) by MaxInt64: x <= MaxInt64 or x < 2^63.
 func (s *Slashing) boundAtom(a *an.Atom, kind, reqFld string) bool {
+	return s.boundAtomS(a, nil, kind, reqFld)
+}
+
+func (s *Slashing) boundAtomS(a *an.Atom, sub Subst, kind, reqFld string) bool {
 	if a == nil {
 		return false
 	}
+	a = resolveAtom(a, sub)
 	k, f := s.reqField(a.LV)
 	if k != kind || f != reqFld {
 		return false
